@@ -171,8 +171,9 @@ def _vararg_only_forwarded(fn):
 def _basic_ok(fn: ast.FunctionDef):
     if fn.decorator_list:
         return False
-    if fn.args.vararg and not _vararg_only_forwarded(fn):
-        return False
+    if fn.args.vararg and not _vararg_only_forwarded(fn) and any(
+            isinstance(x, ast.Name) and x.id == fn.args.vararg.arg and isinstance(x.ctx, (ast.Store, ast.Del)) for x in ast.walk(fn)):
+        return False        # (a *args that is read as a value is bound to the tuple of the extra arguments at the call site)
     if fn.args.kwarg and not _kwarg_only_forwarded(fn):
         return False
     for x in ast.walk(fn):
@@ -239,6 +240,14 @@ class _Fold(ast.NodeTransformer):
 
     def visit_Call(self, n):
         self.generic_visit(n)
+        if isinstance(n.func, ast.Lambda) and not n.keywords and len(n.args) == len(n.func.args.args) and not n.func.args.posonlyargs \
+                and all(isinstance(a, (ast.Name, ast.Constant)) for a in n.args) and not n.func.args.defaults and not n.func.args.vararg \
+                and not n.func.args.kwarg and not n.func.args.kwonlyargs \
+                and not any(isinstance(x, (ast.Lambda, ast.NamedExpr, ast.ListComp, ast.GeneratorExp, ast.SetComp, ast.DictComp)) for x in ast.walk(n.func.body)):
+            # (lambda a: E)(x)  ->  E[a := x]      (x a name or constant: nothing is evaluated earlier or twice)
+            m = ast.Module(body=[ast.Expr(value=copy.deepcopy(n.func.body))], type_ignores=[])
+            _Subst({}, {p_.arg: a for p_, a in zip(n.func.args.args, n.args)}).visit(m)
+            return self.visit(m.body[0].value)
         if isinstance(n.func, ast.Name) and n.func.id == "getattr" and len(n.args) == 2 and not n.keywords and isinstance(n.args[1], ast.Constant) \
                 and isinstance(n.args[1].value, str) and n.args[1].value.isidentifier():
             return ast.Attribute(value=n.args[0], attr=n.args[1].value, ctx=ast.Load())
@@ -289,7 +298,7 @@ def module_bindings(tree, rel):
                 put((a.asname or a.name).split(".")[0], f"import:{a.name if a.asname else a.name.split('.')[0]}")
         elif isinstance(n, ast.ImportFrom):
             for a in n.names:
-                put(a.asname or a.name, f"from:{(n.module or '').split('.')[-1]}:{a.name}")
+                put(a.asname or a.name, f"from:{'.' * n.level}{n.module or ''}:{a.name}")
         elif isinstance(n, (ast.FunctionDef, ast.ClassDef)):
             put(n.name, f"local:{rel}:{n.name}")
         elif isinstance(n, (ast.Assign, ast.AnnAssign)):
@@ -426,6 +435,13 @@ class Inliner:
                 return q
         return self._foreign_target(call)
 
+    def _import_pos(self):
+        i = 0
+        while i < len(self.tree.body) and (isinstance(self.tree.body[i], (ast.Import, ast.ImportFrom)) or (
+                isinstance(self.tree.body[i], ast.Expr) and isinstance(self.tree.body[i].value, ast.Constant))):
+            i += 1
+        return i
+
     def _foreign_target(self, call):
         """a helper defined in another module / a method called on something other than `self`: its name is unique in the whole tree and it is
         not part of the reference tree, so the call can only mean that definition; every global name its body reads must mean the same
@@ -434,7 +450,7 @@ class Inliner:
         if isinstance(f, ast.Name) and f.id in self.foreign and self.foreign[f.id][1] is None:
             name = f.id
             mine = self.bindings.get(self.rel, {}).get(name, "")
-            if not (mine.startswith("from:") and mine.endswith(":" + name)):
+            if mine != f"from:{self.foreign[name][2][:-3].replace('/', '.')}:{name}":
                 return None
         elif isinstance(f, ast.Attribute) and isinstance(f.value, ast.Name) and f.attr in self.foreign and self.foreign[f.attr][1] is not None:
             name = f.attr
@@ -444,16 +460,37 @@ class Inliner:
             fn, owner, home, hb = self.foreign[name]
             here = self.bindings.get(self.rel, {})
             ok = True
-            for g in free_globals(fn):
+            home_mod = home[:-3].replace("/", ".")
+            need = []
+            for g in sorted(free_globals(fn)):
                 a, b = hb.get(g), here.get(g)
-                if a is None or a == "ambiguous" or a != b:
+                if a is None or a == "ambiguous":
                     ok = False
+                    continue
+                if a.startswith("local:"):
+                    a = f"from:{home_mod}:{g}"       # what the home module defines is what this module gets by importing it from there
+                    if home == self.rel:
+                        a = hb.get(g)
+                if b is None and a.startswith("from:") and not a.startswith("from:."):
+                    need.append((a.split(":")[1], g))   # the name is not bound here: import it as the home module has it
+                elif a != b:
+                    ok = False
+            if ok:
+                for mod_, g in need:
+                    self.tree.body.insert(self._import_pos(), ast.ImportFrom(module=mod_, names=[ast.alias(name=g, asname=None)], level=0, lineno=1))
+                    self.bindings.setdefault(self.rel, {})[g] = f"from:{mod_}:{g}"
             if isinstance(f, ast.Attribute) and f.value.id == "self" and home == self.rel:
                 ok = False           # the same-class path decides (dispatch safety is judged there)
             self._foreign_ok[name] = ok
             if ok:
                 self.helpers["@" + name] = (fn, owner)
         return "@" + name if self._foreign_ok[name] else None
+
+    @staticmethod
+    def _only_called(fn, p):
+        uses = [x for x in ast.walk(fn) if isinstance(x, ast.Name) and x.id == p]
+        called = [c for c in ast.walk(fn) if isinstance(c, ast.Call) and isinstance(c.func, ast.Name) and c.func.id == p]
+        return bool(uses) and len(uses) == len(called)
 
     @staticmethod
     def _only_starred(fn, p):
@@ -527,10 +564,24 @@ class Inliner:
             ren["self"] = self_name
         star_sub = {}
         if extra_pos is not None:
-            star_sub[fn.args.vararg.arg] = extra_pos
+            va = fn.args.vararg.arg
+            if _vararg_only_forwarded(fn):
+                star_sub[va] = extra_pos
+            else:
+                # read as a value (returned, iterated, indexed): the tuple Python would build, under a name of its own
+                if va in caller_names:
+                    ren[va] = f"{va}_i{self.counter}"
+                pre.append(ast.Assign(targets=[ast.Name(id=ren.get(va, va), ctx=ast.Store())],
+                                      value=ast.Tuple(elts=[copy.deepcopy(a) for a in extra_pos], ctx=ast.Load()), lineno=call.lineno))
         for p in order:
             a = binding[p]
             if p not in stored and isinstance(a, (ast.Constant, ast.Name)):
+                sub[p] = a
+                ren.pop(p, None)
+            elif p not in stored and isinstance(a, ast.Lambda) and self._only_called(fn, p) and not a.args.defaults and not a.args.kw_defaults \
+                    and not a.args.vararg and not a.args.kwarg and not a.args.kwonlyargs:
+                # a callable that the helper only calls: the lambda is written at the call (its free names mean the same here: it was written
+                # in this function), where an immediately invoked lambda over simple arguments is reduced by _Fold
                 sub[p] = a
                 ren.pop(p, None)
             elif p not in stored and isinstance(a, ast.Tuple) and all(isinstance(e, (ast.Name, ast.Constant)) for e in a.elts) and self._only_starred(fn, p):
@@ -751,10 +802,16 @@ class Inliner:
                 parts = ([e.func.value] if isinstance(e.func, ast.Attribute) else []) + list(e.args) + [k.value for k in e.keywords]
                 if isinstance(e.func, ast.Attribute) or isinstance(e.func, ast.Name):
                     ok = True
+                    is_target = bool(self._target(e, owner))
                     for p in parts:
                         if isinstance(p, ast.Starred):
                             p = p.value
                         if not walk(p):
+                            if is_target and not found and p is not parts[0] or (is_target and not found and not isinstance(e.func, ast.Attribute)):
+                                # an argument of the helper call that is neither simple nor contains a helper call: _expand binds the arguments
+                                # to temporaries in evaluation order, and an expression cannot rebind a local name (no walrus / await / yield)
+                                if not any(isinstance(x, (ast.NamedExpr, ast.Await, ast.Yield, ast.YieldFrom, ast.Lambda)) for x in ast.walk(p)):
+                                    continue
                             ok = False
                             break
                     if found:
@@ -1461,6 +1518,102 @@ class Normalizer(ast.NodeTransformer):
                 self.count += 1
         return out
 
+    # ---- N9-N11: small tuples that only carry values from one statement to the next
+    def _tuple_flow(self, fn):
+        """N9   `tuple(E(x) for x in (a, b))`, `[E(x) for x in (a, b)]`, `list(..)` over a literal of at most four names / constants -> `(E(a), E(b))`
+        N10  `p = (a, b)` (names / constants; p bound once) -> later reads of p in the same block read the display, as long as a, b are not rebound
+        N11  `if c: ..; t = A  else: ..; t = B` followed by `X = t` (t read nowhere else; X a name or a tuple of names) -> the branches assign X"""
+        norm_ = self
+
+        class Unroll(ast.NodeTransformer):
+            def comp(self, elt, gens):
+                if len(gens) != 1 or gens[0].ifs or gens[0].is_async or not isinstance(gens[0].target, ast.Name) or not isinstance(gens[0].iter, (ast.Tuple, ast.List)) \
+                        or not 1 <= len(gens[0].iter.elts) <= 4 or not all(isinstance(e, (ast.Name, ast.Constant)) for e in gens[0].iter.elts):
+                    return None
+                v = gens[0].target.id
+                if any(isinstance(x, (ast.NamedExpr, ast.Lambda, ast.ListComp, ast.GeneratorExp, ast.SetComp, ast.DictComp)) for x in ast.walk(elt)):
+                    return None
+                outs = []
+                for e in gens[0].iter.elts:
+                    m = ast.Module(body=[ast.Expr(value=copy.deepcopy(elt))], type_ignores=[])
+                    _Subst({}, {v: e}).visit(m)
+                    outs.append(m.body[0].value)
+                return outs
+
+            def visit_Call(self, c):
+                self.generic_visit(c)
+                if isinstance(c.func, ast.Name) and c.func.id in ("tuple", "list") and len(c.args) == 1 and not c.keywords and isinstance(c.args[0], (ast.GeneratorExp, ast.ListComp)):
+                    outs = self.comp(c.args[0].elt, c.args[0].generators)
+                    if outs is not None:
+                        norm_.count += 1
+                        return (ast.Tuple if c.func.id == "tuple" else ast.List)(elts=outs, ctx=ast.Load())
+                return c
+
+            def visit_ListComp(self, c):
+                self.generic_visit(c)
+                outs = self.comp(c.elt, c.generators)
+                if outs is not None:
+                    norm_.count += 1
+                    return ast.List(elts=outs, ctx=ast.Load())
+                return c
+
+        def stores(stmts, names):
+            return any((isinstance(x, ast.Name) and x.id in names and isinstance(x.ctx, (ast.Store, ast.Del))) or isinstance(x, (ast.Global, ast.Nonlocal))
+                       for st in stmts for x in ast.walk(st))
+
+        def block(stmts):
+            out = list(stmts)
+            i = 0
+            while i < len(out):
+                st = out[i]
+                # N10
+                if isinstance(st, ast.Assign) and len(st.targets) == 1 and isinstance(st.targets[0], ast.Name) and isinstance(st.value, ast.Tuple) and st.value.elts \
+                        and all(isinstance(e, (ast.Name, ast.Constant)) for e in st.value.elts) and self.fn_stores.get(st.targets[0].id, 0) == 1:
+                    pname = st.targets[0].id
+                    mention = [j for j in range(i + 1, len(out)) if any(isinstance(x, ast.Name) and x.id == pname for x in ast.walk(out[j]))]
+                    elsewhere = sum(1 for x in ast.walk(fn) if isinstance(x, ast.Name) and x.id == pname) - 1 - sum(
+                        1 for j in mention for x in ast.walk(out[j]) if isinstance(x, ast.Name) and x.id == pname)
+                    elt_names = {e.id for e in st.value.elts if isinstance(e, ast.Name)}
+                    if mention and elsewhere == 0 and not stores(out[i + 1:mention[-1] + 1], elt_names) and not any(
+                            isinstance(x, (ast.Lambda, ast.FunctionDef)) for j in mention for x in ast.walk(out[j])):
+                        m = ast.Module(body=out[i + 1:mention[-1] + 1], type_ignores=[])
+                        _Subst({}, {pname: st.value}).visit(m)
+                        out[i + 1:mention[-1] + 1] = m.body
+                        del out[i]
+                        self.count += 1
+                        continue
+                # N11
+                if isinstance(st, ast.If) and st.body and st.orelse and i + 1 < len(out):
+                    nxt, a, b = out[i + 1], st.body[-1], st.orelse[-1]
+                    if isinstance(nxt, ast.Assign) and len(nxt.targets) == 1 and isinstance(nxt.value, ast.Name) and all(
+                            isinstance(z, ast.Assign) and len(z.targets) == 1 and isinstance(z.targets[0], ast.Name) and z.targets[0].id == nxt.value.id for z in (a, b)):
+                        tname, tg = nxt.value.id, nxt.targets[0]
+                        tg_ok = isinstance(tg, ast.Name) or (isinstance(tg, ast.Tuple) and all(isinstance(e, ast.Name) for e in tg.elts))
+                        total = sum(1 for x in ast.walk(fn) if isinstance(x, ast.Name) and x.id == tname)
+                        if tg_ok and total == 3:
+                            a.targets, b.targets = [copy.deepcopy(tg)], [copy.deepcopy(tg)]
+                            del out[i + 1]
+                            self.count += 1
+                            continue
+                for f_ in ("body", "orelse", "finalbody"):
+                    blk = getattr(st, f_, None)
+                    if isinstance(blk, list) and blk and isinstance(blk[0], ast.stmt) and not isinstance(st, (ast.FunctionDef, ast.ClassDef)):
+                        setattr(st, f_, block(blk))
+                for h in getattr(st, "handlers", []) or []:
+                    h.body = block(h.body)
+                i += 1
+            return out
+        for _ in range(3):
+            before = self.count
+            fn.body = block(fn.body)
+            Unroll().visit(fn)
+            self.fn_stores = {}
+            for x in ast.walk(fn):
+                if isinstance(x, ast.Name) and isinstance(x.ctx, (ast.Store, ast.Del)):
+                    self.fn_stores[x.id] = self.fn_stores.get(x.id, 0) + 1
+            if self.count == before:
+                break
+
     def _split_assign(self, stmts):
         """N6  `a, b = x, y` -> `a = x; b = y` when no later value reads an earlier target; `a = b = v` (v a name or constant) -> `a = v; b = v`"""
         out = []
@@ -1478,7 +1631,9 @@ class Normalizer(ast.NodeTransformer):
                             ok = False
                 if ok:
                     self.count += 1
-                    out += [ast.Assign(targets=[t], value=v, lineno=st.lineno) for t, v in zip(tg, vs)]
+                    # (`x = x` left over from `a, b = (a, b)` is dropped: the name was bound, the display was built from it)
+                    out += [ast.Assign(targets=[t], value=v, lineno=st.lineno) for t, v in zip(tg, vs)
+                            if not (isinstance(t, ast.Name) and isinstance(v, ast.Name) and t.id == v.id)] or [ast.Pass()]
                     continue
             if isinstance(st, ast.Assign) and len(st.targets) > 1 and isinstance(st.value, (ast.Name, ast.Constant)) \
                     and all(isinstance(t, (ast.Name, ast.Attribute)) for t in st.targets):
@@ -1538,6 +1693,26 @@ class Normalizer(ast.NodeTransformer):
         (the loop variable is not rebound in the body, the body has no break / continue, and f is not read after the loop)"""
         out = []
         for j, st in enumerate(stmts):
+            if isinstance(st, ast.For) and not st.orelse and isinstance(st.target, ast.Tuple) and all(isinstance(t_, ast.Name) for t_ in st.target.elts) \
+                    and isinstance(st.iter, (ast.Tuple, ast.List)) and 1 <= len(st.iter.elts) <= 4 and fn is not None and all(
+                        isinstance(e, ast.Tuple) and len(e.elts) == len(st.target.elts) and all(isinstance(x, (ast.Name, ast.Constant)) or _immutable_literal(x) for x in e.elts)
+                        for e in st.iter.elts):
+                # `for a, b in ((x1, y1), (x2, y2)): body`: the same unrolling with both names written in
+                vs = [t_.id for t_ in st.target.elts]
+                inside = {id(x) for x in ast.walk(st)}
+                bad = any((isinstance(x, ast.Name) and x.id in vs and isinstance(x.ctx, (ast.Store, ast.Del)) and not any(x is t_ for t_ in st.target.elts))
+                          or isinstance(x, (ast.Break, ast.Continue, ast.Lambda, ast.FunctionDef)) for b in st.body for x in ast.walk(b))
+                used_after = any(isinstance(x, ast.Name) and x.id in vs and id(x) not in inside for x in ast.walk(fn))
+                elt_names = {x.id for e in st.iter.elts for x in ast.walk(e) if isinstance(x, ast.Name)}
+                clobber = any(isinstance(x, ast.Name) and x.id in elt_names and isinstance(x.ctx, (ast.Store, ast.Del)) for b in st.body for x in ast.walk(b))
+                if not bad and not used_after and not clobber and len(set(vs)) == len(vs):
+                    for e in st.iter.elts:
+                        m = ast.Module(body=copy.deepcopy(st.body), type_ignores=[])
+                        _Subst({}, dict(zip(vs, e.elts))).visit(m)
+                        _Fold().visit(m)
+                        out += m.body
+                    self.count += 1
+                    continue
             if isinstance(st, ast.For) and not st.orelse and isinstance(st.target, ast.Name) and isinstance(st.iter, (ast.Tuple, ast.List)) and 1 <= len(st.iter.elts) <= 4 \
                     and all(isinstance(e, (ast.Name, ast.Constant)) for e in st.iter.elts) and fn is not None:
                 v = st.target.id
@@ -1551,6 +1726,7 @@ class Normalizer(ast.NodeTransformer):
                     for e in st.iter.elts:
                         m = ast.Module(body=copy.deepcopy(st.body), type_ignores=[])
                         _Subst({}, {v: e}).visit(m)
+                        _Fold().visit(m)
                         out += m.body
                     self.count += 1
                     continue
@@ -1588,6 +1764,7 @@ class Normalizer(ast.NodeTransformer):
                 self.fn_stores[x.id] = self.fn_stores.get(x.id, 0) + 1
         prev_fn = getattr(self, "cur_fn", None)
         self.cur_fn = f
+        self._tuple_flow(f)
         self.generic_visit(f)
         f.body = self._copy_prop(self._slice_alias(f.body))
         self.cur_fn = prev_fn
@@ -1607,6 +1784,8 @@ class Normalizer(ast.NodeTransformer):
 
     def visit_If(self, n):
         self.generic_visit(n)
+        if n.orelse and all(isinstance(x, ast.Pass) for x in n.orelse):
+            n.orelse = []
         if hasattr(self, "fn_stores"):
             n.body = self._slice_alias(n.body)
             n.orelse = self._slice_alias(n.orelse) if n.orelse else n.orelse
@@ -1634,6 +1813,101 @@ def _numeric_literal(e):
     if isinstance(e, ast.UnaryOp):
         return isinstance(e.op, (ast.USub, ast.UAdd)) and _numeric_literal(e.operand)
     return False
+
+
+def _immutable_literal(e, depth=0):
+    """a (nested) tuple display of constants: equal wherever it is written out (identity is not observable through the library)"""
+    if isinstance(e, ast.Tuple) and depth < 3:
+        return bool(e.elts) and all(isinstance(x, ast.Constant) or _immutable_literal(x, depth + 1) for x in e.elts)
+    return False
+
+
+def fold_literal_factories(tree, rel, inv):
+    """`def f(a, b=1, **extra): return {<display built from constants, the parameters and calls of other such functions>}` that is not part
+    of the reference tree, called with literal arguments: the call is replaced by the display with the arguments written in (every call
+    built a new object; so does the display).  `**extra` may only be spread into a dict display / forwarded.  -> number of calls folded"""
+    def literalish(e, names=()):
+        if isinstance(e, ast.Constant):
+            return True
+        if isinstance(e, ast.Name):
+            return e.id in names
+        if isinstance(e, ast.UnaryOp) and isinstance(e.op, (ast.USub, ast.UAdd)):
+            return literalish(e.operand, names)
+        if isinstance(e, (ast.Tuple, ast.List, ast.Set)):
+            return all(literalish(x, names) for x in e.elts)
+        if isinstance(e, ast.Dict):
+            return all((k is None or literalish(k, names)) and literalish(v, names) for k, v in zip(e.keys, e.values))
+        if isinstance(e, ast.Call) and isinstance(e.func, ast.Name) and e.func.id in facts:
+            return all(literalish(a, names) for a in e.args) and all(k.arg is not None and literalish(k.value, names) for k in e.keywords)
+        return False
+    facts = {}
+    cands = [fn for fn in tree.body if isinstance(fn, ast.FunctionDef) and f"{rel}:{fn.name}" not in inv and not fn.decorator_list and not fn.args.vararg
+             and not fn.args.posonlyargs]
+    for _ in range(3):
+        for fn in cands:
+            body = [st for st in fn.body if not (isinstance(st, ast.Expr) and isinstance(st.value, ast.Constant))]
+            if len(body) != 1 or not isinstance(body[0], ast.Return) or body[0].value is None:
+                continue
+            names = {a.arg for a in fn.args.args + fn.args.kwonlyargs} | ({fn.args.kwarg.arg} if fn.args.kwarg else set())
+            facts.setdefault(fn.name, None)
+            if literalish(body[0].value, names) and all(literalish(d) for d in list(fn.args.defaults) + [d for d in fn.args.kw_defaults if d is not None]):
+                facts[fn.name] = (fn, body[0].value)
+            else:
+                facts.pop(fn.name)
+    facts = {k: v for k, v in facts.items() if v is not None}
+    if not facts:
+        return 0
+    count = [0]
+
+    class Sub(ast.NodeTransformer):
+        def visit_Call(self, c):
+            self.generic_visit(c)
+            if not (isinstance(c.func, ast.Name) and c.func.id in facts and literalish(c)):
+                return c
+            fn, expr = facts[c.func.id]
+            pos = [a.arg for a in fn.args.args]
+            if len(c.args) > len(pos):
+                return c
+            bind = dict(zip(pos, c.args))
+            extra = []
+            for k in c.keywords:
+                if k.arg in bind:
+                    return c
+                if k.arg in pos or k.arg in [a.arg for a in fn.args.kwonlyargs]:
+                    bind[k.arg] = k.value
+                elif fn.args.kwarg is not None:
+                    extra.append(k)
+                else:
+                    return c
+            dflt = dict(zip(pos[len(pos) - len(fn.args.defaults):], fn.args.defaults))
+            dflt.update({a.arg: d for a, d in zip(fn.args.kwonlyargs, fn.args.kw_defaults) if d is not None})
+            for p_ in pos + [a.arg for a in fn.args.kwonlyargs]:
+                if p_ not in bind:
+                    if p_ not in dflt:
+                        return c
+                    bind[p_] = dflt[p_]
+            new = copy.deepcopy(expr)
+            kwname = fn.args.kwarg.arg if fn.args.kwarg else None
+            if kwname:
+                for d in ast.walk(new):
+                    if isinstance(d, ast.Dict):
+                        ks, vs = [], []
+                        for k_, v_ in zip(d.keys, d.values):
+                            if k_ is None and isinstance(v_, ast.Name) and v_.id == kwname:
+                                ks += [ast.Constant(value=e.arg) for e in extra]
+                                vs += [copy.deepcopy(e.value) for e in extra]
+                            else:
+                                ks.append(k_)
+                                vs.append(v_)
+                        d.keys, d.values = ks, vs
+                if any(isinstance(x, ast.Name) and x.id == kwname for x in ast.walk(new)):
+                    return c
+            m = ast.Module(body=[ast.Expr(value=new)], type_ignores=[])
+            _Subst({}, bind).visit(m)
+            count[0] += 1
+            return Sub().visit(m.body[0].value)
+    Sub().visit(tree)
+    return count[0]
 
 
 def _referenced(trees, name):
@@ -1705,6 +1979,17 @@ def build_inlined_tree(src_root, dst_root):
                     t.body.insert(idx_, fn_)
                 else:
                     report["removed"].append(f"{rel}:{fn_.name}")
+        nlf = fold_literal_factories(t, rel, inv)
+        if nlf:
+            changed.add(rel)
+            report.setdefault("literal_factories_folded", {})[rel] = nlf
+            for fn_ in [f for f in t.body if isinstance(f, ast.FunctionDef) and f"{rel}:{f.name}" not in inv]:
+                idx_ = t.body.index(fn_)
+                t.body.remove(fn_)
+                if _referenced(trees.values(), fn_.name):
+                    t.body.insert(idx_, fn_)
+                else:
+                    report["removed"].append(f"{rel}:{fn_.name}")
         inl = Inliner(rel, t, inv, other, foreign, bindings)
         recs = record_classes(t, rel, inv)
         has_closures = any(Inliner._direct_nested(fn_) for fn_, _o in inl.funcs.values())
@@ -1741,8 +2026,9 @@ def build_inlined_tree(src_root, dst_root):
         used = False
         for t2 in trees.values():
             for x in ast.walk(t2):
-                if (isinstance(x, ast.Name) and x.id == name) or (isinstance(x, ast.Attribute) and x.attr == name) or (isinstance(x, ast.Constant) and x.value == name):
-                    used = True
+                if (isinstance(x, ast.Name) and x.id == name) or (isinstance(x, ast.Attribute) and x.attr == name) or (isinstance(x, ast.Constant) and x.value == name) \
+                        or (isinstance(x, ast.alias) and x.name == name):
+                    used = True          # (a module that imports the name re-exports it: other code may import it from there)
         if used:
             holder.body.insert(idx, fn)
             report["kept"].append(f"{home}:{name}")
@@ -1751,18 +2037,6 @@ def build_inlined_tree(src_root, dst_root):
         changed.add(home)
         if not holder.body:
             holder.body.append(ast.Pass())
-        for rel2, t2 in trees.items():
-            for imp in [x for x in ast.walk(t2) if isinstance(x, ast.ImportFrom) and any(a.name == name for a in x.names)]:
-                imp.names = [a for a in imp.names if a.name != name]
-                changed.add(rel2)
-                if not imp.names:
-                    for blk_owner in ast.walk(t2):
-                        for f_ in ("body", "orelse", "finalbody"):
-                            blk = getattr(blk_owner, f_, None)
-                            if isinstance(blk, list) and imp in blk:
-                                blk.remove(imp)
-                                if not blk:
-                                    blk.append(ast.Pass())
     # remove helpers that are no longer referenced anywhere
     for rel in sorted(changed):
         t = trees[rel]
@@ -1800,7 +2074,7 @@ def build_inlined_tree(src_root, dst_root):
     for rel, t in trees.items():
         for n in list(t.body):
             if isinstance(n, ast.Assign) and len(n.targets) == 1 and isinstance(n.targets[0], ast.Name) and f"{rel}:const {n.targets[0].id}" not in inv \
-                    and _numeric_literal(n.value):
+                    and (_numeric_literal(n.value) or _immutable_literal(n.value)):
                 name = n.targets[0].id
                 stores = [x for x in ast.walk(t) if isinstance(x, ast.Name) and x.id == name and isinstance(x.ctx, (ast.Store, ast.Del))]
                 shadow = any(isinstance(x, ast.arg) and x.arg == name for x in ast.walk(t)) or any(
